@@ -178,7 +178,7 @@ class _FailingSection:
 
 # ----------------------------------------------------------------------------- one scenario
 def _ext(fmt):
-    return '.p8.png' if fmt == 'png' else '.p8'
+    return {'png': '.p8.png', 'p8': '.p8', 'rom': '.rom', 'txt': '.txt'}[fmt]
 
 
 class _Run:
@@ -544,7 +544,7 @@ def compare(case, obs, answers):
                 return 'fault index %r: failed run left other files behind: %r' % (r['k'], r['new_files'])
     ref = obs['runs'][0]
     fk = case['fault']['kind']
-    if fk in ('writer-raises', 'no-reparse', 'section-raises', 'label-unreadable', 'version') and ref['raised'] is None:
+    if fk in ('writer-raises', 'no-reparse', 'section-raises', 'label-unreadable', 'version', 'no-encoder') and ref['raised'] is None:
         if not (fk == 'no-reparse' and case['fmt'] == 'png'):        # the .p8.png writer has no sanity re-parse
             return 'the failure source %s did not make the write fail' % fk
     if fk in ('inject', 'none') and ref['raised'] is not None:
@@ -698,6 +698,10 @@ def generate(tier, rng):
                     d = _sc('many', 'p8', ex, 'small', {'kind': 'inject', 'ks': ('segments' if quick else ['stride', 7])}, seed=seed)
                     d['overwrite'], d['inputs'] = ow, inputs
                     cases.append(d)
+        # formats without an encoder: .rom (ROMFormatter.to_file raises NotImplementedError), unrecognised extension
+        for fmt in ('rom', 'txt'):
+            for ex in (True, False):
+                cases.append(_sc('api', fmt, ex, 'small', {'kind': 'no-encoder'}, seed=seed))
         # internal failure sources (API)
         for fmt in ('p8', 'png'):
             for ex in (True, False):
